@@ -26,23 +26,36 @@ def srcStore? : TVal R → Option (Builder R → Builder R × Option Unit)
   | .ref r => some (Generated.BuilderOps.store_ref r)
   | .maybeRef r => some (Generated.BuilderOps.store_maybe_ref r)
   | .dict r => some (Generated.BuilderOps.store_dict r)
-  | .string _ => none
-  | .addr _ => none
+  | .string bs => some (Generated.BuilderOps.store_string bs)
+  | .addr .none => some (Generated.BuilderOps.store_address_none ())
+  | .addr (.std any wc h) => some (Generated.BuilderOps.store_address_address ⟨wc, h, any.map fun (d, p) => ⟨d, p⟩⟩)
+  | .addr (.ext _ _) => none
 
 theorem srcStore_eq (tv : TVal R) (f : Builder R → Builder R × Option Unit) (h : srcStore? tv = some f) (b : Builder R) :
     f b = ofFlag (tv.store b) := by
-  cases tv <;> simp only [srcStore?, Option.some.injEq, reduceCtorEq] at h <;> subst h <;> simp only [TVal.store]
-  · exact src_store_uint_eq _ _ b
-  · exact src_store_int_eq _ _ b
-  · exact src_store_var_uint_eq _ _ b
-  · exact src_store_var_int_eq _ _ b
-  · exact src_store_coins_eq _ b
-  · exact src_store_bool_eq _ b
-  · exact src_store_bits_eq _ b
-  · exact src_store_bytes_eq _ b
-  · exact src_store_ref_eq _ b
-  · exact src_store_maybe_ref_eq _ b
-  · exact src_store_dict_eq _ b
+  cases tv with
+  | uint n v => simp only [srcStore?, Option.some.injEq] at h; subst h; exact src_store_uint_eq _ _ b
+  | int n v => simp only [srcStore?, Option.some.injEq] at h; subst h; exact src_store_int_eq _ _ b
+  | varUint k v => simp only [srcStore?, Option.some.injEq] at h; subst h; exact src_store_var_uint_eq _ _ b
+  | varInt k v => simp only [srcStore?, Option.some.injEq] at h; subst h; exact src_store_var_int_eq _ _ b
+  | coins v => simp only [srcStore?, Option.some.injEq] at h; subst h; exact src_store_coins_eq _ b
+  | bit v => simp only [srcStore?, Option.some.injEq] at h; subst h; exact src_store_bool_eq _ b
+  | bits bs => simp only [srcStore?, Option.some.injEq] at h; subst h; exact src_store_bits_eq _ b
+  | bytes bs => simp only [srcStore?, Option.some.injEq] at h; subst h; exact src_store_bytes_eq _ b
+  | string bs => simp only [srcStore?, Option.some.injEq] at h; subst h; exact src_store_string_eq _ b
+  | ref r => simp only [srcStore?, Option.some.injEq] at h; subst h; exact src_store_ref_eq _ b
+  | maybeRef r => simp only [srcStore?, Option.some.injEq] at h; subst h; exact src_store_maybe_ref_eq _ b
+  | dict r => simp only [srcStore?, Option.some.injEq] at h; subst h; exact src_store_dict_eq _ b
+  | addr a =>
+    cases a with
+    | none => simp only [srcStore?, Option.some.injEq] at h; subst h; exact src_store_address_none_eq _ b
+    | ext l v => simp [srcStore?] at h
+    | std any wc hp =>
+      simp only [srcStore?, Option.some.injEq] at h; subst h
+      have := src_store_address_std_eq ⟨wc, hp, any.map fun (d, p) => ⟨d, p⟩⟩ b
+      rw [this]
+      simp only [addrOf, TVal.store]
+      cases any <;> rfl
 
 /-- every builder operation of a history: typed stores, `store_cell(c)`, `store_slice(s)` (a fresh slice over the remaining
 bits / references) -/
@@ -80,8 +93,8 @@ def srcLoad? : Kind → Option (Py.SliceSt R → Py.SliceSt R × Option (TVal R)
   | .bytes n => some fun s => mapR TVal.bytes (Generated.SliceOps.load_bytes n s)
   | .ref => some fun s => mapR TVal.ref (Generated.SliceOps.load_ref s)
   | .maybeRef => some fun s => mapR TVal.maybeRef (Generated.SliceOps.load_maybe_ref s)
+  | .string n => some fun s => mapR TVal.string (Generated.SliceOps.load_string n s)
   | .dict => none
-  | .string _ => none
   | .addr => none
 
 /-- the regenerated `preload_*` method of a kind -/
@@ -95,9 +108,9 @@ def srcPreload? : Kind → Option (Py.SliceSt R → Py.SliceSt R × Option (TVal
   | .bits n => some fun s => mapR TVal.bits (Generated.SliceOps.preload_bits n s)
   | .bytes n => some fun s => mapR TVal.bytes (Generated.SliceOps.preload_bytes n s)
   | .maybeRef => some fun s => mapR TVal.maybeRef (Generated.SliceOps.preload_maybe_ref s)
-  | .ref => none
+  | .ref => some fun s => mapR TVal.ref (Generated.SliceOps.preload_ref 0 s)
+  | .string n => some fun s => mapR TVal.string (Generated.SliceOps.preload_string n s)
   | .dict => none
-  | .string _ => none
   | .addr => none
 
 theorem viewR_mapR (f : α → β) (g : β → TVal R) (r : Py.SliceSt R × Option α) (m : SOp R β) (s0 : Slice R)
@@ -115,6 +128,7 @@ theorem srcLoad_eq (k : Kind) (g : Py.SliceSt R → Py.SliceSt R × Option (TVal
   · exact viewR_mapR id TVal.bit _ _ _ (src_load_bool_eq s)
   · exact viewR_mapR id TVal.bits _ _ _ (src_load_bits_eq _ s)
   · exact viewR_mapR id TVal.bytes _ _ _ (src_load_bytes_eq _ s)
+  · exact viewR_mapR id TVal.string _ _ _ (src_load_string_eq _ s)
   · exact viewR_mapR id TVal.ref _ _ _ (src_load_ref_eq s)
   · exact viewR_mapR id TVal.maybeRef _ _ _ (src_load_maybe_ref_eq s)
 
@@ -129,6 +143,8 @@ theorem srcPreload_eq (k : Kind) (g : Py.SliceSt R → Py.SliceSt R × Option (T
   · exact viewR_mapR id TVal.bit _ _ _ (src_preload_bool_eq s)
   · exact viewR_mapR id TVal.bits _ _ _ (src_preload_bits_eq _ s)
   · exact viewR_mapR id TVal.bytes _ _ _ (src_preload_bytes_eq _ s)
+  · exact viewR_mapR id TVal.string _ _ _ (src_preload_string_eq _ s)
+  · exact viewR_mapR id TVal.ref _ _ _ (src_preload_ref_eq s)
   · exact viewR_mapR id TVal.maybeRef _ _ _ (src_preload_maybe_ref_eq s)
 
 end TonVerif.Proofs.SrcTyped
